@@ -27,6 +27,12 @@ def gen_reconnect(seed, opts=None):
         plan['connect_delay'] = _pick(rng, [(1, ['hops', rng.randint(1, 5)]), (1, ['time', _pick(rng, [(2, 0.001), (1, 0.02)])])])
     if rng.random() < 0.4:
         plan['on_close_sleep'] = _pick(rng, [(1, 0.0005), (1, 0.02), (1, 0.5)])
+    big = rng.random() < 0.4
+    if big:
+        # servers that fragment what they send, and a link that delivers it piecemeal: a connection can end in the
+        # middle of a fragmented frame (whatever was reassembled so far must not leak into the next connection)
+        plan['server'] = {'fragment': _pick(rng, [(3, 64), (1, 100)])}
+        plan['link']['s2c'].update(drain='delay', drain_delay=_pick(rng, [(1, 0.001), (1, 0.004)]), drain_prob=1.0)
     events = []
     t = 0.05
     ias = []
@@ -39,9 +45,13 @@ def gen_reconnect(seed, opts=None):
                   'req': {'dlen': rng.randint(8, 80), 'mlen': None}}
             if kind == 'rr':
                 ia['resp'] = {'mode': _pick(rng, [(2, 'never'), (1, 'now'), (1, 'delay')]), 'delay': 0.005, 'dlen': 20, 'mlen': None}
+                if big:
+                    ia['resp'].update(mode=_pick(rng, [(1, 'never'), (2, 'now'), (2, 'delay')]), dlen=rng.randint(100, 400))
             elif kind in ('stream', 'channel'):
                 ia['resp'] = {'src': _pick(rng, [(1, 'gen'), (1, 'agen'), (1, 'manual')]), 'count': rng.randint(1, 6),
                               'lens': [[rng.randint(1, 100), None]], 'end': 'separate', 'pacing': _pick(rng, [(1, 0), (2, 0.01)])}
+                if big:
+                    ia['resp']['lens'] = [[rng.randint(80, 300), None]]
                 ia['sub'] = {'initial_n': _pick(rng, [(1, 1), (1, 0x7FFFFFFF)]), 'refill': [1]}
                 if kind == 'channel':
                     ia['pub'] = None
@@ -50,12 +60,24 @@ def gen_reconnect(seed, opts=None):
             iid += 1
         cause = _pick(rng, [(3, 'server_eof'), (2, 'reset'), (2, 'keepalive_timeout'), (3, 'explicit')])
         t_end = round(t + 0.03 + rng.uniform(0, 0.02), 4)
+        if big and rng.random() < 0.6:
+            # the server asks too (fragmented requests travelling towards the client when the connection ends)
+            for _ in range(rng.randint(1, 3)):
+                ias.append({'id': iid, 'kind': 'rr', 'by': 'server', 'at': round(t_end - rng.uniform(0, 0.02), 4), 'conn': k,
+                            'req': {'dlen': rng.randint(100, 400), 'mlen': None},
+                            # 'delay': the client's handler answers when that connection is long gone (and a new one is up)
+                            'resp': {'mode': _pick(rng, [(1, 'never'), (2, 'now'), (2, 'delay')]), 'delay': round(rng.uniform(0.2, 0.8), 3),
+                                     'dlen': 20, 'mlen': None}})
+                iid += 1
         via = 'script'
         if cause in ('server_eof', 'reset'):
             via = _pick(rng, [(2, 'on_close'), (2, 'script')])
         elif cause == 'keepalive_timeout':
             via = _pick(rng, [(3, 'on_keepalive_timeout'), (1, 'script')])
         events.append({'conn': k, 'cause': cause, 'at': t_end, 'via': via, 'hops': rng.randint(0, 4)})
+        if big and cause in ('server_eof', 'reset') and rng.random() < 0.6:
+            # the link dies at a byte offset of the server->client direction instead of at a time
+            events[-1].update(cause='cut', offset=rng.randint(20, 700), mode='eof' if cause == 'server_eof' else 'reset')
         # time for the end to be noticed and the new connection to come up
         if cause == 'keepalive_timeout':
             t = t_end + 2 * L * MS + 0.3
@@ -68,6 +90,13 @@ def gen_reconnect(seed, opts=None):
         ias.append({'id': iid, 'kind': 'rr', 'by': 'client', 'at': round(t, 4), 'conn': k + 1, 'probe': True,
                     'req': {'dlen': 16, 'mlen': None}, 'resp': {'mode': 'now', 'dlen': 24, 'mlen': None}})
         iid += 1
+        if big:
+            # ... and the new connection's server asks the client: ids restart at 2, nothing of the old connection may interfere
+            for j in range(rng.randint(1, 2)):
+                ias.append({'id': iid, 'kind': 'rr', 'by': 'server', 'at': round(t + 0.01 + 0.01 * j, 4), 'conn': k + 1, 'probe': True,
+                            'req': {'dlen': _pick(rng, [(1, 16), (1, rng.randint(100, 300))]), 'mlen': None},
+                            'resp': {'mode': 'now', 'dlen': 24, 'mlen': None}})
+                iid += 1
         t += 0.1
     plan['events'] = events
     plan['interactions'] = ias
@@ -77,6 +106,9 @@ def gen_reconnect(seed, opts=None):
         late = [(3, 0.45)] if (opts or {}).get('lease') else []  # a lease that arrives after the first request of the connection
         plan['lease'] = {'delay': _pick(rng, [(1, 0.0), (1, 0.005), (1, 0.05)] + late), 'n': _pick(rng, [(1, 3), (3, 1000)]),
                          'ttl_us': 600_000_000}
+        if any(e['cause'] == 'cut' for e in events):
+            # a cut may end a connection earlier than planned, its remaining requests then run on the next one
+            plan['lease']['n'] = 1000
     return plan
 
 
@@ -129,12 +161,17 @@ def _run(world, plan):
             link.c2s.name = 'c2s#%d' % k
             link.s2c.name = 's2c#%d' % k
             links.append(link)
+            evk = events_by_conn.get(k)
+            if evk is not None and evk['cause'] == 'cut':
+                link.set_cut('s2c', evk['offset'], evk['mode'])
             st = world.make_tcp_transport('server#%d' % k, link.server_reader, link.server_writer)
             skw = {}
             if plan.get('lease'):
                 from .exec_peer import _make_lease_publisher
                 lz = plan['lease']
                 skw['lease_publisher'] = _make_lease_publisher(world, [{'at': loop.time() + lz['delay'], 'n': lz['n'], 'ttl_us': lz['ttl_us']}])
+            if plan.get('server', {}).get('fragment'):
+                skw['fragment_size_bytes'] = plan['server']['fragment']
             server = RSocketServer(st, handler_factory=server_factory(k),
                                    keep_alive_period=timedelta(seconds=1000), max_lifetime_period=timedelta(seconds=10000), **skw)
             world.tap_endpoint('server#%d' % k, server)
@@ -143,8 +180,9 @@ def _run(world, plan):
             cd = plan.get('connect_delay')
             if cd:
                 orig_connect = ct.connect
+                ready = asyncio.Event()
 
-                async def slow_connect(orig_connect=orig_connect, k=k):
+                async def slow_connect(orig_connect=orig_connect, k=k, ready=ready):
                     world.rec('tr', ep='client#%d' % k, what='connect_suspended')
                     if cd[0] == 'hops':
                         for _ in range(cd[1]):
@@ -152,14 +190,25 @@ def _run(world, plan):
                     else:
                         await asyncio.sleep(cd[1])
                     await orig_connect()
+                    ready.set()
 
+                # like a lazily dialled transport (TransportAioHttpClient): nothing is sent or received before connect() is through
+                def gate(fn, ready=ready):
+                    async def gated(*a):
+                        await ready.wait()
+                        return await fn(*a)
+
+                    return gated
+
+                ct.send_frame = gate(ct.send_frame)
+                ct.next_frame_generator = gate(ct.next_frame_generator)
                 ct.connect = slow_connect
             state['conn'] = k
             yield ct
             k += 1
 
     def client_factory():
-        h = H(world, 'client', {}, None)
+        h = H(world, 'client', {i: x for i, x in scripts.items() if x.get('by') == 'server'}, None)
         world.handlers['client'] = h
 
         async def on_close_hook(rs):
@@ -195,6 +244,7 @@ def _run(world, plan):
         async def connect_tapped():
             r = await orig_connect()
             world.rec('act', ep='client', what='connected', conn=state['conn'])
+            state['connected'] = state['conn']
             return r
 
         client.connect = connect_tapped
@@ -208,6 +258,11 @@ def _run(world, plan):
             if k >= len(links):
                 return
             cause = ev['cause']
+            if cause == 'cut':
+                # fired by the link when the byte offset is reached; if the server never sent that much, now
+                if links[k].cut_fired is None:
+                    links[k].fire_cut(links[k].s2c)
+                return
             world.rec('fault', what=cause, conn=k)
             world.fault_fired(cause)
             if cause == 'server_eof':
@@ -235,6 +290,12 @@ def _run(world, plan):
 
     for ia in plan['interactions']:
         def starter(ia=ia):
+            if ia.get('by') == 'server':
+                name = 'server#%d' % state['conn']
+                # (a server has no connection to ask on before the client's connect() is through)
+                if name in world.endpoints and state.get('connected') == state['conn']:
+                    app.start_interaction(world, name, ia)
+                return
             app.start_interaction(world, 'client', ia)
 
         loop.call_at(ia['at'], starter)
@@ -292,7 +353,7 @@ def oracle_c17(world):
             V('old_transport_not_closed', 'transport of connection %d was not closed on reconnect (%s)' % (k, cause), req['seq'], **facts)
         # (2) pending requests of the old connection failed
         for ia in plan['interactions']:
-            if ia.get('conn') != k or ia.get('probe'):
+            if ia.get('conn') != k or ia.get('probe') or ia.get('by') == 'server':
                 continue
             act = next((e for e in h if e['k'] == 'act' and e.get('what') == 'request' and e.get('iid') == ia['id']), None)
             if act is None or act['seq'] > req['seq']:
@@ -329,6 +390,9 @@ def oracle_c17(world):
         next_end = next((e2 for e2 in events if e2['conn'] == new), None)
         conn_ev = next((e for e in h if e['k'] == 'act' and e.get('what') == 'connected' and e.get('conn') == new), None)
         end_t = next_end['at'] if next_end else next((e['t'] for e in h if e['k'] == 'mark'), None)
+        if next_end is not None and next_end['cause'] == 'cut':
+            # a connection cut at a byte offset ends when the link says so
+            end_t = next((e['t'] for e in h if e['k'] == 'fault' and e.get('what') == 'cut' and e.get('dir') == 's2c#%d' % new), end_t)
         if conn_ev is not None and end_t is not None and end_t - conn_ev['t'] > 2.5 * P:
             kas = [e for e in wire if e['f']['type'] == 'KEEPALIVE' and e['f'].get('respond') and e['t'] <= end_t]
             if len(kas) < int((end_t - conn_ev['t']) / P) - 1:
@@ -336,13 +400,29 @@ def oracle_c17(world):
                   % (len(kas), end_t - conn_ev['t'], P), None, **facts)
         # (6) requests issued afterwards are served
         for ia in plan['interactions']:
+            if ia.get('probe') and ia.get('conn') == new and ia.get('by') == 'server':
+                # a request of the new connection's server: the client's handler sees exactly that request
+                act = next((e for e in h if e['k'] == 'act' and e.get('what') == 'request' and e.get('iid') == ia['id']
+                            and e.get('ep') == 'server#%d' % new), None)
+                if act is None or (next_end is not None and (next_end['at'] <= ia['at'] + 0.05 or next_end['cause'] == 'cut')):
+                    continue
+                exp = app.nb(app.content(ia['id'], 'q', 0, 'D', ia['req']['dlen']))
+                got = [e for e in h if e['k'] == 'hnd' and e.get('ep') == 'client' and e.get('method') == 'request_response'
+                       and e['seq'] > act['seq'] and e.get('iid') == ia['id']]
+                if len(got) != 1 or got[0].get('data') != exp:
+                    V('server_request_not_delivered', 'request of the new connection\'s server (stream id restarted) reached the client '
+                      'handler %d times / altered (%s)' % (len(got), cause), act['seq'], **facts)
+                continue
             if ia.get('probe') and ia.get('conn') == new:
                 done = [e for e in h if e['k'] == 'fut' and e.get('iid') == ia['id'] and e.get('role') == 'requester' and e['seq'] < mark]
                 if not done or done[0]['state'] != 'result':
                     # the probe is only meaningful if the next ending event had not started yet
-                    if next_end is None or next_end['at'] > ia['at'] + 0.05:
+                    if next_end is None or (next_end['at'] > ia['at'] + 0.05 and next_end['cause'] != 'cut'):
                         V('probe_not_served', 'request issued after reconnect (%s) was not answered: %s'
                           % (cause, done[0].get('err') if done else 'still pending'), None, **facts)
+                elif done[0].get('data') != app.nb(app.content(ia['id'], 'r', 0, 'D', ia['resp']['dlen'])) or done[0].get('metadata'):
+                    V('probe_response_corrupt', 'request issued after reconnect (%s) was answered with something else than the '
+                      'handler\'s response' % cause, done[0]['seq'], **facts)
     # (7) on_close once per ended connection
     closes = [e for e in h if e['k'] == 'hnd' and e.get('ep') == 'client' and e['method'] == 'on_close' and e['seq'] < mark]
     ended = len([e for e in events if any(r.get('conn') == e['conn'] for r in requests)])
@@ -375,4 +455,91 @@ def oracle_c14_reconnect(world):
         if lease_rx and len({(e['f']['sid']) for e in reqs}) > sum(e['f']['n'] for e in lease_rx):
             V('sent_beyond_grant', 'connection %d: %d requests for %d granted' % (k, len(reqs), sum(e['f']['n'] for e in lease_rx)),
               None, connection=k)
+    return out
+
+
+# ---------------------------------------------------------------------------------------------
+# other properties across a reconnect (the state a reconnect must not carry over)
+# ---------------------------------------------------------------------------------------------
+
+def _conn_no(name):
+    return int(str(name).split('#')[1])
+
+
+def oracle_c08_reconnect(world):
+    """C08 per connection: every stream frame on a connection belongs to a stream that was opened on that
+    connection (by a request frame of the side whose parity it has, written earlier)."""
+    out = []
+    V = lambda cls, msg, seq=None, **f: out.append(Violation('C08', 'C08.' + cls, msg, seq, **f))
+    h = world.history
+    mark = next((e['seq'] for e in h if e['k'] == 'mark'), float('inf'))
+    opened = {}  # (conn, sid)
+    flagged = set()
+    for e in h:
+        if e['k'] != 'wire' or '#' not in str(e.get('dir')) or e['seq'] > mark:
+            continue
+        f = e['f']
+        sid = f.get('sid') or 0
+        if sid <= 0:
+            continue
+        d, k = e['dir'].split('#')[0], _conn_no(e['dir'])
+        mine = (sid % 2 == 1) == (d == 'c2s')  # ids of the sender's own parity
+        if f['type'] in REQ_TYPES and mine:
+            opened[(k, sid)] = e['seq']
+            continue
+        if (k, sid) not in opened and (k, sid, d) not in flagged:
+            flagged.add((k, sid, d))
+            V('frame_on_unopened_stream', '%s on stream %d of connection %d (%s), which was never opened on that connection'
+              % (f['type'], sid, k, d), e['seq'], type=f['type'], dir=d, after_reconnect=k > 0)
+    return out
+
+
+def oracle_c01_reconnect(world):
+    """C01 across reconnects: a response resolves the request it belongs to with the handler's payload, and a request
+    issued on connection c is only ever delivered to the server of connection c."""
+    out = []
+    V = lambda cls, msg, seq=None, **f: out.append(Violation('C01', 'C01.' + cls, msg, seq, **f))
+    plan = world.plan
+    h = world.history
+    ias = {ia['id']: ia for ia in plan['interactions']}
+    cur = None
+    issued_on = {}
+    for e in h:
+        if e['k'] == 'prov':
+            cur = None
+        elif e['k'] == 'act' and e.get('what') == 'connected':
+            cur = e.get('conn')
+        elif e['k'] == 'act' and e.get('what') == 'request' and e.get('ep') == 'client' and cur is not None:
+            issued_on[e['iid']] = cur
+        elif e['k'] == 'hnd' and str(e.get('ep', '')).startswith('server#') and e.get('iid') in issued_on:
+            j = _conn_no(e['ep'])
+            if j != issued_on[e['iid']]:
+                V('request_delivered_on_other_connection', 'request %d was issued on connection %d but reached the handler of connection %d'
+                  % (e['iid'], issued_on[e['iid']], j), e['seq'], kind=ias.get(e['iid'], {}).get('kind'))
+        elif e['k'] == 'fut' and e.get('role') == 'requester' and e.get('state') == 'result' and e.get('ep') == 'client':
+            ia = ias.get(e['iid'])
+            if ia is not None and ia['kind'] == 'rr':
+                if e.get('data') != app.nb(app.content(ia['id'], 'r', 0, 'D', ia['resp']['dlen'])) or e.get('metadata'):
+                    V('response_mismatch', 'request-response %d resolved with a payload that is not its handler\'s response' % e['iid'],
+                      e['seq'], probe=bool(ia.get('probe')))
+    return out
+
+
+def oracle_c03_reconnect(world):
+    """C03 across reconnects: whatever the client reassembles is a frame one of its servers queued, unaltered."""
+    out = []
+    V = lambda cls, msg, seq=None, **f: out.append(Violation('C03', 'C03.' + cls, msg, seq, **f))
+    h = world.history
+    queued = set()
+    for e in h:
+        if e['k'] == 'enq' and str(e.get('ep', '')).startswith('server#'):
+            f = e['f']
+            queued.add((f.get('sid'), bytes(f.get('data') or b''), bytes(f.get('metadata') or b'')))
+    for e in h:
+        if e['k'] == 'reasm' and e.get('ep') == 'client':
+            f = e['f']
+            if (f.get('sid'), bytes(f.get('data') or b''), bytes(f.get('metadata') or b'')) not in queued:
+                V('reassembly_mismatch', 'client reassembled a %s on stream %d (%d data bytes) that no server queued'
+                  % (f['type'], f.get('sid'), len(f.get('data') or b'')), e['seq'], type=f['type'], across_reconnect=True)
+                break
     return out
